@@ -178,7 +178,7 @@ namespace via
         Routes_const_iterator iter(routes_.cbegin());
         for (; iter != routes_.cend (); ++iter)
         {
-          bool found_path(uri_path.find(iter->search_path) != std::string::npos);
+          bool found_path(uri_path.find(iter->search_path) == 0);
           if (found_path)
           {
             if (iter->has_parameters())
